@@ -94,6 +94,165 @@ type Result struct {
 	Branches map[string]int `json:"rule_branches"`
 	// Claims: run-time checkable lockset claims (site, mutex expression), see instrument.go
 	Claims []Claim `json:"claims"`
+	// lock order: "acquires To while holding From" per site; Fresh = one of the two mutexes belongs to an
+	// object that is not published yet (it cannot be contended); LockRefs = the mutex classes in the
+	// order of a topological sort of the non-fresh edges (LockRank[i] = rank of LockRefs[i]; all 0 when
+	// the relation has a cycle); LockCycles = pairs of edges A->B, B->..->A found
+	LockOrder  []LockEdge `json:"lock_order"`
+	LockRefs   []string   `json:"lock_refs"`
+	LockRank   []int      `json:"lock_rank"`
+	LockCycles []string   `json:"lock_cycles"`
+}
+
+type LockEdge struct {
+	From  string `json:"from"`
+	To    string `json:"to"`
+	Site  string `json:"site"`
+	Fresh bool   `json:"fresh"`
+}
+
+func lockRefOf(k lockKey) (ref string, base string, ok bool) {
+	cls, b := keyBase(k)
+	cls = strings.TrimPrefix(cls, sharedPrefix)
+	if strings.Contains(cls, ":") {
+		return "", "", false
+	}
+	if b == "" {
+		return "g:" + cls, "", true
+	}
+	return "s:" + cls, b, true
+}
+
+// lockOrder resolves the recorded acquisitions against the locks held at function entry
+func (a *analyzer) lockOrder(res *Result, entry map[*unit]map[lockKey]bool) {
+	// parameters that every caller binds to a fresh object
+	entryFresh := map[*unit]map[string]bool{}
+	for _, u := range a.units {
+		var acc map[string]bool
+		for i, e := range u.in {
+			fp := e.freshParams
+			if e.mode != "call" || fp == nil {
+				fp = map[string]bool{}
+			}
+			if i == 0 {
+				acc = map[string]bool{}
+				for k := range fp {
+					acc[k] = true
+				}
+			} else {
+				for k := range acc {
+					if !fp[k] {
+						delete(acc, k)
+					}
+				}
+			}
+		}
+		entryFresh[u] = acc
+	}
+	isFresh := func(u *unit, aq *acq, base string, local bool) bool {
+		if base == "" {
+			return false
+		}
+		if local && aq.fresh[base] {
+			return true
+		}
+		return aq.fresh["param:"+base] && entryFresh[u][base]
+	}
+	seen := map[string]bool{}
+	refs := map[string]bool{}
+	for _, u := range a.units {
+		for _, aq := range u.acqs {
+			to, toBase, ok := lockRefOf(aq.key)
+			if !ok {
+				continue
+			}
+			refs[to] = true
+			for h := range eff(entry[u], aq.st) {
+				from, fromBase, ok := lockRefOf(h)
+				if !ok || h == aq.key {
+					continue
+				}
+				refs[from] = true
+				fresh := isFresh(u, aq, toBase, true) || isFresh(u, aq, fromBase, aq.st.added[h])
+				e := LockEdge{From: from, To: to, Site: fmt.Sprintf("%s:%d", u.name, aq.line), Fresh: fresh}
+				k := fmt.Sprintf("%s|%s|%s|%v", e.From, e.To, e.Site, e.Fresh)
+				if !seen[k] {
+					seen[k] = true
+					res.LockOrder = append(res.LockOrder, e)
+				}
+			}
+		}
+	}
+	sort.Slice(res.LockOrder, func(i, j int) bool {
+		x, y := res.LockOrder[i], res.LockOrder[j]
+		if x.From != y.From {
+			return x.From < y.From
+		}
+		if x.To != y.To {
+			return x.To < y.To
+		}
+		return x.Site < y.Site
+	})
+	// topological sort (Kahn) of the non-fresh relation
+	names := keys(refs)
+	succ := map[string]map[string]bool{}
+	indeg := map[string]int{}
+	for _, n := range names {
+		succ[n] = map[string]bool{}
+	}
+	for _, e := range res.LockOrder {
+		if !e.Fresh && !succ[e.From][e.To] {
+			succ[e.From][e.To] = true
+			indeg[e.To]++
+		}
+	}
+	rank := map[string]int{}
+	done := map[string]bool{}
+	for r := 1; ; r++ {
+		var layer []string
+		for _, n := range names {
+			if !done[n] && indeg[n] == 0 {
+				layer = append(layer, n)
+			}
+		}
+		if len(layer) == 0 {
+			break
+		}
+		for _, n := range layer {
+			done[n] = true
+			rank[n] = r
+			for m := range succ[n] {
+				indeg[m]--
+			}
+		}
+	}
+	cyclic := len(done) < len(names)
+	res.LockRefs = names
+	for _, n := range names {
+		if cyclic {
+			res.LockRank = append(res.LockRank, 0)
+		} else {
+			res.LockRank = append(res.LockRank, rank[n])
+		}
+	}
+	if cyclic {
+		// report, for every edge between two unsorted classes, the edge and one edge back (or the self edge)
+		for _, e := range res.LockOrder {
+			if e.Fresh || done[e.From] || done[e.To] {
+				continue
+			}
+			back := ""
+			for _, f := range res.LockOrder {
+				if !f.Fresh && f.From == e.To && !done[f.To] && (f.To == e.From || back == "") {
+					back = f.Site
+					if f.To == e.From {
+						break
+					}
+				}
+			}
+			res.LockCycles = append(res.LockCycles, fmt.Sprintf("%s|%s|%s|%s", e.From[2:], e.To[2:], e.Site, back))
+		}
+	}
 }
 
 type Claim struct {
@@ -532,6 +691,7 @@ func (a *analyzer) solve() *Result {
 	res.check()
 	res.Branches = map[string]int{}
 	res.branches(res.Branches)
+	a.lockOrder(res, entry)
 	return res
 }
 
@@ -892,6 +1052,33 @@ func (r *Result) lean() string {
 	fmt.Fprintf(&b, "def badClassIds : List Nat := %s\n", natList(bad))
 	fmt.Fprintf(&b, "def goodClassIds : List Nat := %s\n", natList(good))
 	fmt.Fprintf(&b, "def badClassNames : List String := %s\n", strList(r.BadClasses))
+	b.WriteString("\n/-- lock order: mutex classes (g: = mutex of a singleton object, s: = mutex of the object itself) -/\n")
+	fmt.Fprintf(&b, "def lockRefNames : List String := %s\n", strList(r.LockRefs))
+	b.WriteString("/-- (held, acquired) for every site that takes a mutex while holding another one; acquisitions on or under a fresh\n    (unpublished) object's mutex are listed separately: they cannot be contended -/\n")
+	edges := func(fresh bool) string {
+		var xs []string
+		seen := map[string]bool{}
+		for _, e := range r.LockOrder {
+			if e.Fresh != fresh {
+				continue
+			}
+			k := fmt.Sprintf("(%d, %d)", idx(r.LockRefs, e.From), idx(r.LockRefs, e.To))
+			if !seen[k] {
+				seen[k] = true
+				xs = append(xs, k)
+			}
+		}
+		return "[" + strings.Join(xs, ", ") + "]"
+	}
+	fmt.Fprintf(&b, "def lockOrderEdges : List (Nat × Nat) := %s\n", edges(false))
+	fmt.Fprintf(&b, "def lockOrderFreshEdges : List (Nat × Nat) := %s\n", edges(true))
+	b.WriteString("/-- the translator's topological rank of each mutex class (all 0 when it found a cycle) -/\n")
+	fmt.Fprintf(&b, "def lockRank : List Nat := %s\n", natList(r.LockRank))
+	var sites []string
+	for _, e := range r.LockOrder {
+		sites = append(sites, fmt.Sprintf("%s -> %s at %s fresh=%v", e.From, e.To, e.Site, e.Fresh))
+	}
+	fmt.Fprintf(&b, "def lockOrderSites : List String := %s\n", strList(sites))
 	b.WriteString("\nend OllamaVerif.Generated.C15\n")
 	return b.String()
 }
